@@ -208,7 +208,7 @@ def gen_cases(rng, tier):
     per = 4 if tier == "quick" else 60
     cases = [face_normal_case(rng) for _ in range(per)]
     for kind in sc.KINDS:
-        for stream, share in (("random", 1.0), ("lattice", 0.6), ("exact", 0.6), ("near", 0.3), ("degen", 0.4)):
+        for stream, share in (("random", 1.0), ("lattice", 0.6), ("exact", 0.6), ("near", 0.3), ("degen", 0.75)):
             n = int(per * share * (2 if kind == "mesh" else 1))
             for _ in range(n):
                 cases.append(gen_case(rng, kind, stream))
